@@ -248,8 +248,10 @@ def main(argv=None):
     if fresh:
         evidence["coverage"]["violation_mechanisms"] = sorted({v["mechanism"] for v in fresh})
     if not args.replay and not args.only:
-        os.makedirs(os.path.join(core.VERIF_ROOT, "evidence"), exist_ok=True)
-        epath = os.path.join(core.VERIF_ROOT, "evidence", prop + ".json")
+        # runs against a scratch copy (self-test) must not overwrite the evidence of the real tree
+        edir = os.path.join(core.VERIF_ROOT, ".work", "evidence-scratch") if os.environ.get("VERIF_REPO_ROOT") else os.path.join(core.VERIF_ROOT, "evidence")
+        os.makedirs(edir, exist_ok=True)
+        epath = os.path.join(edir, prop + ".json")
         with open(epath + ".tmp", "w") as f:
             json.dump(evidence, f, indent=1, sort_keys=False)
         os.replace(epath + ".tmp", epath)
